@@ -32,6 +32,10 @@ type HistOp struct {
 	Str2 string `json:"str2,omitempty"`
 	Jobs int    `json:"jobs,omitempty"`
 	Seed uint64 `json:"seed,omitempty"`
+	// Tight > 0 (concurrent read-only operations): the schedule preempts at
+	// about every Tight-th lookup point, so that short windows inside the
+	// first lookups after an edit are entered.
+	Tight int `json:"tight,omitempty"`
 	// Sub (Op == "par"): Sub[0], a read or read-only operation of session S,
 	// and Sub[1], an edit of the OTHER session, run as two goroutines under
 	// the scheduler: documents are independent, the caches behind them are
@@ -115,6 +119,22 @@ func genHistoryCase(prop, tier string, r *rand.Rand) *Case {
 	// swarm: operation mix varies per case
 	wEdit, wRead, wRO := 1+r.IntN(4), r.IntN(3), r.IntN(3)
 	cfg := &HistoryCfg{CheckEveryStep: r.IntN(4) > 0}
+	if r.IntN(6) == 0 {
+		// a short history of its own: somebody's husband or wife is deleted
+		// and the first reader afterwards is a pool of goroutines (whatever
+		// is rebuilt lazily after the edit is rebuilt by several at once)
+		cfg.CheckEveryStep = false
+		s := r.IntN(sessions)
+		if r.IntN(2) == 0 {
+			cfg.Ops = append(cfg.Ops, HistOp{S: s, Op: "doc.delete.spouse", B: 1})
+		} else {
+			for k := 1 + r.IntN(3); k > 0; k-- {
+				cfg.Ops = append(cfg.Ops, HistOp{S: s, Op: "doc.delete.spouse", A: r.IntN(1000)})
+			}
+		}
+		cfg.Ops = append(cfg.Ops, HistOp{S: s, Op: pick(r, []string{"ro.compare", "ro.compare", "ro.publish", "ro.diffpage"}), Jobs: pick(r, []int{2, 3, 8}),
+			A: r.IntN(1000), B: r.IntN(1000), C: r.IntN(1000), Seed: r.Uint64(), Tight: pick(r, []int{2, 3, 5, 10, 20})})
+	}
 	for i := 0; i < n; i++ {
 		op := HistOp{S: r.IntN(sessions), A: r.IntN(1000), B: r.IntN(1000), C: r.IntN(1000), Seed: r.Uint64()}
 		k := r.IntN(wEdit + wRead + wRO)
@@ -133,9 +153,14 @@ func genHistoryCase(prop, tier string, r *rand.Rand) *Case {
 		if (op.Op == "doc.delete" || op.Op == "doc.setnodes" || op.Op == "node.delete") && r.IntN(2) == 0 {
 			// root records go, and the next thing that happens is a read by
 			// several goroutines at once (nothing looks anything up before)
+			if op.Op == "doc.delete" && r.IntN(2) == 0 {
+				// the record that goes is somebody's husband or wife: the
+				// records that stay still point at it
+				op.Op = "doc.delete.spouse"
+			}
 			cfg.Ops = append(cfg.Ops, op)
 			op = HistOp{S: op.S, Op: pick(r, []string{"ro.compare", "ro.compare", "ro.publish", "ro.diffpage"}), Jobs: pick(r, []int{2, 3, 8}),
-				A: r.IntN(1000), B: r.IntN(1000), C: r.IntN(1000), Seed: r.Uint64()}
+				A: r.IntN(1000), B: r.IntN(1000), C: r.IntN(1000), Seed: r.Uint64(), Tight: pick(r, []int{0, 2, 5, 10, 20})}
 			if r.IntN(2) == 0 {
 				cfg.CheckEveryStep = false
 			}
@@ -505,6 +530,38 @@ func applyEdit(ss *session, op HistOp) (applied bool) {
 			return false
 		}
 		doc.DeleteNode(doc.Nodes()[op.A%len(doc.Nodes())])
+	case "doc.delete.spouse":
+		// found by walking the raw lines: nothing is looked up by pointer
+		// between the edit before and the read after this operation
+		// (B == 1: every husband goes, so that everybody who stays and was
+		// married points at a record that is gone)
+		spouse := map[string]bool{}
+		for _, n := range doc.Nodes() {
+			if n.Tag().Tag() != "FAM" {
+				continue
+			}
+			for _, ch := range n.Nodes() {
+				if t := ch.Tag().Tag(); t == "HUSB" || (t == "WIFE" && op.B != 1) {
+					spouse[strings.Trim(ch.Value(), "@")] = true
+				}
+			}
+		}
+		var cands []gedcom.Node
+		for _, n := range doc.Nodes() {
+			if n.Tag().Tag() == "INDI" && spouse[n.Pointer()] {
+				cands = append(cands, n)
+			}
+		}
+		if len(cands) == 0 {
+			return false
+		}
+		if op.B == 1 {
+			for _, n := range cands {
+				doc.DeleteNode(n)
+			}
+			break
+		}
+		doc.DeleteNode(cands[op.A%len(cands)])
 	case "doc.setnodes":
 		old := doc.Nodes()
 		var nw gedcom.Nodes
@@ -658,6 +715,18 @@ func applyReadOnly(t *testing.T, cr *CaseResult, prop string, ss *session, other
 		f()
 	}
 	sim := GenSim(NewRand(op.Seed))
+	if op.Tight > 0 {
+		// a goroutine that is preempted at a lookup stays behind for a while
+		// (a slow thread): the few instructions between two of its steps
+		// become a long window for everybody else
+		sim.PointGap = int64(op.Tight)
+		sim.StallSteps = pick(NewRand(op.Seed), []int64{5, 10, 10, 20, 50})
+		if op.Seed%2 == 0 {
+			sim.Mode, sim.PCTDepth, sim.PCTHorizon = "pct", 2, 200
+		} else {
+			sim.Mode, sim.PreemptProb = "random", 0.3
+		}
+	}
 	sim.Today = parseToday(today)
 	labels := map[unsafe.Pointer]int{}
 	n := labelDoc(labels, doc, 0)
@@ -1104,7 +1173,10 @@ func execHistory(t *testing.T, c *Case, cr *CaseResult, ops []HistOp, every bool
 					}
 				}
 			}
-			if every && !checkAll(step, op, "read-only") {
+			// (in sparse mode too after a read by several goroutines that
+			// follows the deletion of records: what such a read leaves in the
+			// caches is gone after the next edit)
+			if (every || op.Tight > 0) && !checkAll(step, op, "read-only") {
 				return ""
 			}
 			continue
